@@ -81,7 +81,18 @@ Proof. unfold mgr_recreate_cond; zb. destruct (Z.leb_spec (Z.of_nat i) (Z.of_nat
 Lemma b_msg_reserve_clears : msg_reserve_clears = true.
 Proof. reflexivity. Qed.
 
-Global Opaque msg_reserve_clears pfi_zero_cond pfi_zero_ret reserve_skip_cond reserve_new_capacity eb_grow_cond eb_grow_arg eb_reuse_cond pfi_reserve_arg
+(* special member functions: the plain move constructor delegates to the empty constructor and swaps, the
+   allocator-extended one move-assigns, move assignment with equal allocators swaps, swap exchanges all four members *)
+Lemma b_move_ctor_swaps : move_ctor_swaps = true.
+Proof. reflexivity. Qed.
+Lemma b_move_xctor_assigns : move_xctor_assigns = true.
+Proof. reflexivity. Qed.
+Lemma b_move_assign_swaps : move_assign_swaps = true.
+Proof. reflexivity. Qed.
+Lemma b_swap_exchanges_all : swap_exchanges_all = true.
+Proof. reflexivity. Qed.
+
+Global Opaque move_ctor_swaps move_xctor_assigns move_assign_swaps swap_exchanges_all msg_reserve_clears pfi_zero_cond pfi_zero_ret reserve_skip_cond reserve_new_capacity eb_grow_cond eb_grow_arg eb_reuse_cond pfi_reserve_arg
   pfi_move_end pfi_recon_end pfi_loop1_start pfi_loop2_start pfi_construct_src pfi_assign_src pfi_new_size
   ins_fill_end insr_fill_end emplace_reuse_cond erase_new_size_delta resize_grow_cond resizev_grow_cond
   resize_recon_end resizev_recon_end clear_new_size meta_ctor_csize meta_ctor_capacity meta_update_capacity
